@@ -1,4 +1,8 @@
 """C03 — commit all-or-nothing, conflict exactly on write-write conflict."""
+import shutil
+import tempfile
+
+from lib import common as C
 from lib import histgen as G
 from lib import histprops as P
 
@@ -29,7 +33,103 @@ def run(rep):
                 outcomes[r] = outcomes.get(r, 0) + 1
     rep.coverage["commit_outcomes"] = outcomes
     rep.assumptions = ["sequential commits (concurrent commits: C07)"]
+    commit_is_one_kv_transaction(rep)
+
+
+def commit_is_one_kv_transaction(rep):
+    """all-or-nothing below the in-memory lists: the version records of a commit are re-tagged in ONE key-value transaction
+    (Durable.v models a commit as one atomic change of the record set; appendix A.2: a successful commit = [kv.txn] followed
+    by cleaning triples, a failed one writes no version record).  Observed through the mutation events of the real code;
+    when the events differ, a crash between the separate writes is searched for as the concrete failing input."""
+    from lib.props import c04
+    fsdbh = C.ensure_harness()
+    rng = C.rng_for(rep.seed, "c03-kv")
+    checked, bad = 0, 0
+    for w in range(6 if rep.tier == "quick" else 40):
+        nkeys = rng.randint(2, 5)
+        keytab = "keytab " + " ".join(("c%d" % k).encode().hex() for k in range(1, nkeys + 1))
+        lvl = rng.choice(["RU", "RC", "RR", "SER"])
+        ops = ["set 0 %d %d 3 s" % (k, k) for k in range(1, nkeys + 1)] + ["begin " + lvl]
+        wk = rng.sample(range(1, nkeys + 1), rng.randint(2, nkeys))
+        v = 10
+        for k in wk:
+            v += 1
+            ops.append("del 1 %d" % k if rng.random() < 0.25 else "set 1 %d %d 4 s" % (k, v))
+        conflict = lvl in ("RR", "SER") and rng.random() < 0.4
+        if conflict:
+            ops.append("set 0 %d 99 2 s" % wk[0])
+        ops.append("commit 1")
+        base = tempfile.mkdtemp(prefix="verif-c03-")
+        try:
+            rc, out, err = c04.run_child(fsdbh, keytab, ops, base, 0)
+        finally:
+            shutil.rmtree(base, ignore_errors=True)
+        acks = [l[4:] for l in out if l.startswith("ACK ")]
+        if rc != 0 or len(acks) != len(ops):
+            raise C.CheckBroken("C03 commit workload did not run: rc=%s %s %s" % (rc, out[-3:], err[-300:]))
+        res, evs = [x.strip() for x in acks[-1].split("|", 1)]
+        evs = evs.split()
+        checked += 1
+        want_ok = not conflict
+        problems = []
+        if (res == "ok") != want_ok:
+            continue                       # the outcome itself is the business of the history comparison above
+        if res == "ok" and (evs.count("kv.txn") != 1 or evs[0] != "kv.txn" or "kv.set:file" in evs):
+            problems.append("a successful commit of %d keys is not ONE key-value transaction" % len(wk))
+        if res != "ok" and ("kv.txn" in evs or "kv.set:file" in evs):
+            problems.append("a failed commit wrote version records")
+        if not problems:
+            continue
+        bad += 1
+        if bad > 2:
+            continue
+        # concrete input: die between the separate writes, reopen, compare with the two allowed states
+        nev_before = sum(len(a.split("|", 1)[1].split()) for a in acks[:-1])
+        found = None
+        for n in range(nev_before + 1, nev_before + len(evs) + 1):
+            r = c04.crash_run(fsdbh, keytab, ops, nkeys, n)
+            if not r.get("crashed"):
+                continue
+            before = c04.spec_views(keytab, ops[:-1], nkeys)[0]
+            after = c04.spec_views(keytab, ops, nkeys)[0]
+            if r["obs"] not in (before, after):
+                found = dict(crash_before_mutation=n, at=r["at"], observed=r["obs"], allowed=[before, after])
+                break
+        if found:
+            rep.violation(dict(kind="oracle", what="commit is not all-or-nothing: %s; a crash between the writes leaves part of the "
+                               "transaction committed after reopening" % problems[0], workload=ops, keytab=keytab, events=evs, **found))
+        else:
+            rep.violation(dict(kind="correspondence", what=problems[0] + " (model: Durable.v, one atomic change of the record set)",
+                               correspondence="persistent mutation events of Commit vs DESIGN appendix A.2", workload=ops,
+                               keytab=keytab, events=evs, theorem="C03 commit atomicity rests on Durable.v's atomic commit step"),
+                          no_input=True)
+    rep.coverage["commit_kv_transactions"] = dict(commits_observed=checked, not_one_transaction=bad,
+                                                  rule="2-5 keys, a transaction at a random level writing/deleting 2..n of them, 40% "
+                                                       "conflicting at RR/SER; mutation events of Commit: [kv.txn] + cleaning triples")
 
 
 def replay(rep, path):
+    import json
+    p = json.load(open(path))
+    if "workload" in p:
+        from lib.props import c04
+        fsdbh = C.ensure_harness()
+        C.ensure_driver()
+        nkeys = len(p["keytab"].split()) - 1
+        base = tempfile.mkdtemp(prefix="verif-c03-")
+        try:
+            rc, out, err = c04.run_child(fsdbh, p["keytab"], p["workload"], base, 0)
+        finally:
+            shutil.rmtree(base, ignore_errors=True)
+        acks = [l[4:] for l in out if l.startswith("ACK ")]
+        print("workload:", p["workload"])
+        print("commit  :", acks[-1] if acks else out)
+        res, evs = [x.strip() for x in acks[-1].split("|", 1)]
+        bad = (res == "ok" and (evs.split().count("kv.txn") != 1 or "kv.set:file" in evs.split())) or (res != "ok" and "kv.txn" in evs)
+        if "crash_before_mutation" in p:
+            r = c04.crash_run(fsdbh, p["keytab"], p["workload"], nkeys, p["crash_before_mutation"])
+            print("crash before mutation %d -> after reopening: %s" % (p["crash_before_mutation"], r.get("obs")))
+            print("allowed:", p["allowed"])
+            bad = bad or (r.get("crashed") and r["obs"] not in p["allowed"])
+        return 1 if bad else 0
     return P.replay_hist(rep, path)
